@@ -1,0 +1,27 @@
+//go:build verif
+
+// Contracts checked by /verif (gocv). Comment-only; compiled only with -tags verif.
+
+package scan
+
+//@ assume scan.ErrNativeHistogramsUnsupported != nil
+
+// selectPoint: the sample selected for evaluation time ts is the most recent sample with
+// T <= ts-offset; it is reported iff it exists, is not older than lookbackDelta and is not a
+// staleness marker (statement of C02). j below is that sample's index in the ghost series.
+//@ const selJ = ite(it.cur < it.sn && it.sT[it.cur] <= ts-offset, it.cur, it.cur-1)
+//@ func selectPoint
+//@   requires it != nil && lookbackDelta >= 0 && it.delta >= lookbackDelta
+//@   requires memo_inv(it.sn, it.sT, it.cur, it.hasPrev, it.lastSeek, it.delta)
+//@   requires ts - offset >= it.lastSeek
+//@   assigns ghost cur, ghost hasPrev, ghost lastSeek, ghost failed
+//@   ensures[C15] storage-error-surfaces: it.failed ==> result3 != nil && !result2
+//@   ensures[C02] floats-never-fail: !it.failed && it.floats ==> result3 == nil
+//@   ensures memo_inv-kept: !it.failed ==> memo_inv(it.sn, it.sT, it.cur, it.hasPrev, it.lastSeek, it.delta) && it.lastSeek == ts-offset
+//@   ensures[C02] j-is-latest-at-or-before-ref: result3 == nil ==> -1 <= selJ && selJ < it.sn &&
+//@       (selJ >= 0 ==> it.sT[selJ] <= ts-offset) && (forall k in 0..it.sn :: it.sT[k] <= ts-offset ==> k <= selJ)
+//@   ensures[C02] present-iff-within-lookback-and-not-stale: result3 == nil ==>
+//@       (result2 <==> selJ >= 0 && it.sT[selJ] >= ts-offset-lookbackDelta && !isstale(it.sV[selJ]))
+//@   ensures[C02] selected-sample: result3 == nil && result2 ==> result0 == it.sT[selJ] && result1 == it.sV[selJ]
+//@   ensures[C16] within-hinted-range: result2 ==> ts-offset-lookbackDelta <= result0 && result0 <= ts-offset
+//@   ensures[C18,C19] never-stale: result2 ==> !isstale(result1)
